@@ -282,6 +282,11 @@ def real_params(rel, qual, default):
         names = [a.arg for a in f.args.posonlyargs + f.args.args] if f is not None else []
         if len(names) == len(default) and not f.args.kwonlyargs and not f.args.vararg and not f.args.kwarg:
             return names
+        # parameters ADDED behind the roles, all with defaults (the unchanged call sites still work): the roles keep their positions; the added
+        # ones are bound to arbitrary values by `with_added_params`
+        if f is not None and len(names) > len(default) and not f.args.vararg and not f.args.kwarg and len(f.args.defaults) >= len(names) - len(default) \
+                and all(d is not None for d in f.args.kw_defaults):
+            return names[:len(default)]
     except Exception:  # noqa
         pass
     return list(default)
@@ -295,7 +300,7 @@ def extra_params(rel, qual, n_roles):
         f = loader.module(rel).functions.get(qual)
         pos = f.args.posonlyargs + f.args.args
         extra, defaults = pos[n_roles:], f.args.defaults
-        if len(pos) <= n_roles or len(defaults) < len(extra) or f.args.vararg or f.args.kwarg:
+        if len(pos) < n_roles or (len(pos) == n_roles and not f.args.kwonlyargs) or len(defaults) < len(extra) or f.args.vararg or f.args.kwarg:
             return None
         out = []
         from pyvc.verify import Maker
@@ -460,7 +465,25 @@ def contracts(reg):
             return q in loader.module(rel).functions
         except Exception:  # noqa
             return True
-    return [c for c in out if c.target not in R7 or exists(c.target)]
+    return [with_added_params(c) for c in out if c.target not in R7 or exists(c.target)]
+
+
+def with_added_params(c):
+    try:
+        if "::" not in c.target or (c.params and c.params[0][0] == "self" and False):
+            return c
+        rel, q = c.target.split("::")
+        f = loader.module(rel).functions.get(q)
+        if f is None:
+            return c
+        n_real = len(f.args.posonlyargs + f.args.args) + len(f.args.kwonlyargs)
+        if n_real > len(c.params):
+            extra = extra_params(rel, q, len(c.params))
+            if extra and len(extra) == n_real - len(c.params) and not ({n for n, _ in extra} & {n for n, _ in c.params}):
+                c.params = list(c.params) + extra
+    except Exception:  # noqa
+        pass
+    return c
 
 
 # ------------------------------------------------------------------- round 7: the 7z reader's writing side under deductive contracts --
